@@ -182,13 +182,15 @@ def dimer_checks(part, seed):
     # coordinates on an integer grid, stored as an integer array (a toy lattice model): centroids are not whole numbers
     grid_mol = (["C", "N", "O", "F", "Cl"], np.array([[0, 0, 0], [2, 1, 0], [-1, 2, 1], [1, -2, 2], [0, 1, -3]]))
     alive = []
-    for syms, pos in (water, chfcl, grid_mol):
+    for syms, pos, shift in ((water[0], water[1], np.array([3.0, -4.0, 5.5])), (chfcl[0], chfcl[1], np.array([3.0, -4.0, 5.5])), (grid_mol[0], grid_mol[1], np.array([3.0, -4.0, 5.5])),
+                             # special values: the two molecules share one centroid (two orientations on one site), away from the origin and at it
+                             (water[0], water[1] + np.array([2.0, 1.0, -3.0]), np.zeros(3)), (chfcl[0], chfcl[1] + np.array([-4.0, 2.5, 1.0]), np.zeros(3)),
+                             (chfcl[0], chfcl[1] - chfcl[1].mean(axis=0), np.zeros(3))):
         for tname, T in transforms(seed):
             part.ev()
             part.tr()
             els = [Element[s] for s in syms]
             a = Molecule(els, pos.copy())
-            shift = np.array([3.0, -4.0, 5.5])
             c = pos.mean(axis=0)
             posb = (pos - c) @ T.T + c + shift
             if pos.dtype.kind == "i":
